@@ -13,6 +13,8 @@ import (
 	"math/rand"
 	"net"
 	"os"
+	"path/filepath"
+	"reflect"
 	"sync"
 	"time"
 
@@ -20,6 +22,8 @@ import (
 	"github.com/wmnsk/go-pfcp/ie"
 	"github.com/wmnsk/go-pfcp/message"
 )
+
+var vEMCounter int
 
 // ---------------------------------------------------------------------------------------------- sockets
 
@@ -107,6 +111,8 @@ type vConn struct {
 }
 
 type vInst struct {
+	// emConn: the harness' end of the unixpacket socket the bess plug-in sends its end markers to (end markers enabled)
+	emConn net.Conn
 	cfg    vCfg
 	u      *upf
 	fb     *fakeBESS
@@ -206,7 +212,33 @@ func newVInstWith(cfg vCfg, old any) *vInst {
 			in.fb.mu.Lock()
 			n0 := in.fb.ncmd
 			in.fb.mu.Unlock()
+			var emLis net.Listener
+			if cfg.EndMarker {
+				// the end-marker socket of the real plug-in: a unixpacket listener of this instance, so that SetUpfInfo dials it
+				// and starts its own send loop; the harness reads what BESS would read, record by record
+				vEMCounter++
+				path := filepath.Join(vScratchDir(), fmt.Sprintf("em-%d-%d.sock", os.Getpid(), vEMCounter))
+				os.Remove(path)
+				l, err := net.Listen("unixpacket", path)
+				if err != nil {
+					panic("VERIF-INFRA: end-marker socket: " + err.Error())
+				}
+				emLis = l
+				conf.EndMarkerSockAddr = path
+				defer os.Remove(path)
+			}
 			b.SetUpfInfo(u, conf)
+			if emLis != nil {
+				if ul, ok := emLis.(*net.UnixListener); ok {
+					ul.SetDeadline(time.Now().Add(30 * time.Second))
+				}
+				c, err := emLis.Accept()
+				emLis.Close()
+				if err != nil {
+					panic("VERIF-INFRA: the bess plug-in did not connect to its end-marker socket: " + err.Error())
+				}
+				in.emConn = c
+			}
 			// SetUpfInfo clears the four tables over a channel it has just created; should that very first connection
 			// attempt have failed (thousands of short-lived channels per second), the clear commands were not sent: wait for
 			// the channel and let the plug-in clear again - start-up is not what is being varied here
@@ -224,7 +256,9 @@ func newVInstWith(cfg vCfg, old any) *vInst {
 			}
 		} else {
 			b.readQciQosMap(conf)
-			b.endMarkerChan = make(chan []byte, 1024)
+			if f := reflect.ValueOf(b).Elem().FieldByName("endMarkerChan"); f.IsValid() {
+				vSetField(b, "endMarkerChan", reflect.MakeChan(f.Type(), 1024).Interface())
+			}
 			b.client = in.fb
 			b.conn = ready
 			b.clearState()
@@ -285,6 +319,16 @@ func (in *vInst) close() {
 	}
 	if in.bs != nil && in.bs.conn != nil && in.bs.conn != fbReadyCon {
 		in.bs.conn.Close()
+	}
+	if in.emConn != nil {
+		// ends the plug-in's send loop (it ranges over the queue) and releases both ends of the socket
+		if f := vFieldValue(in.bs, "endMarkerChan"); f.IsValid() && f.Kind() == reflect.Chan && !f.IsNil() {
+			f.Close()
+		}
+		in.emConn.Close()
+		if in.bs.endMarkerSocket != nil {
+			in.bs.endMarkerSocket.Close()
+		}
 	}
 }
 
